@@ -171,9 +171,20 @@ package app
 //@ // C09: the outcome is a function of the votes, not of Go's map iteration order: the histogram loop is
 //@ // order independent (commutativity obligation), and the winner is the lowest candidate index with
 //@ // enough votes.
+//@ // C11: the number of votes a candidate has is the number of voters (map keys) whose vote is that candidate:
+//@ // cardEq over the vote map's domain (finite-set counting, externals.vspec). outcomeIndex's histogram is proved
+//@ // to equal it for every iteration order, so "reached numRequiredVotes" is a statement about distinct voters.
+//@ pred voteCount(v, c) := cardEq(mapdom(v.Votes), mapvals(v.Votes), c)
+//@ pred reached(v, c, n) := voteCount(v, c) > 0 && voteCount(v, c) >= n
 //@ func (*Voting).outcomeIndex
 //@   requires votingInv(v)
 //@   opt order-indep = check
+//@   ensures ret1 ==> reached(v, ret0, numRequiredVotes)
+//@   ensures ret1 ==> (forall j :: 0 <= j && j < ret0 ==> !reached(v, j, numRequiredVotes))
+//@   ensures !ret1 ==> (forall j :: 0 <= j && j < len(v.Candidates) ==> !reached(v, j, numRequiredVotes))
+//@   invariant@1 forall k :: visitedset()[k] ==> mapdom(v.Votes)[k]
+//@   invariant@1 forall c :: pw(numVotes, c) == cardEq(visitedset(), mapvals(v.Votes), c)
+//@   invariant@2 forall c :: pw(numVotes, c) == voteCount(v, c)
 //@   ensures ret1 ==> (0 <= ret0 && ret0 < len(v.Candidates))
 //@   ensures ret1 ==> (numVotes[ret0] > 0 && numVotes[ret0] >= numRequiredVotes)
 //@   ensures ret1 ==> (forall j :: 0 <= j && j < ret0 ==> !(pw(numVotes, j) > 0 && pw(numVotes, j) >= numRequiredVotes))
@@ -209,6 +220,16 @@ package app
 //@ pred votingInvD(d) := d.SuccessVoting.Votes != nil && (forall a Arr :: has(d.SuccessVoting.Votes, a) ==> (0 <= d.SuccessVoting.Votes[a] && d.SuccessVoting.Votes[a] < len(d.SuccessVoting.Candidates)))
 //@ pred votingsSeparate(app) := forall e :: has(app.DKGMap, e) ==> app.DKGMap[e].SuccessVoting.Votes != app.ConfigVoting.Votes
 //@ pred appInv(app) := appCfgInv(app) && len(app.Configs) >= 1 && dkgInv(app) && ntInv(app.NonceTracker) && app.CheckTxState != nil && votingInv(app.ConfigVoting) && votingsSeparate(app)
+//@ // C11, the governance invariant between transactions (voteInv): every threshold is at most the size of its keyper
+//@ // list; every key of the config vote map is the code of a member of the newest configuration; and no candidate
+//@ // has yet reached the newest configuration's threshold (a vote that reaches it is consumed at once: the votes are
+//@ // reset when a configuration is accepted, and the newest configuration only changes then).
+//@ pred lastCfg(app) := app.Configs[len(app.Configs) - 1]
+//@ pred memberKey(cfg, k) := exists i :: 0 <= i && i < len(cfg.Keypers) && keyof(cfg.Keypers[i]) == k
+//@ pred votersAreMembers(app) := forall k :: mapdom(app.ConfigVoting.Votes)[k] ==> memberKey(lastCfg(app), k)
+//@ pred noWinner(app) := forall j :: (0 <= j && j < len(app.ConfigVoting.Candidates)) ==> !reached(app.ConfigVoting, j, lastCfg(app).Threshold)
+//@ pred thresholdsOK(app) := forall i :: 0 <= i && i < len(app.Configs) ==> app.Configs[i].Threshold <= len(app.Configs[i].Keypers)
+//@ pred voteInv(app) := thresholdsOK(app) && votersAreMembers(app) && noWinner(app)
 //@
 //@ func (*ShutterApp).LastConfig
 //@   requires app != nil && len(app.Configs) >= 1
@@ -235,18 +256,31 @@ package app
 //@   ensures !old(has(v.Votes, sender)) ==> (ret0 == nil && has(v.Votes, sender))
 //@   ensures forall a Arr :: a != sender ==> (has(v.Votes, a) == old(has(v.Votes, a)) && v.Votes[a] == old(v.Votes[a]))
 //@   ensures votingInv(v) && len(v.Candidates) >= old(len(v.Candidates)) && len(v.Candidates) <= old(len(v.Candidates)) + 1
+//@   ensures ret0 != nil ==> (mapdom(v.Votes) == old(mapdom(v.Votes)) && mapvals(v.Votes) == old(mapvals(v.Votes)))
+//@   ensures ret0 == nil ==> voteFiled(v, sender, candidate)
 //@
+//@ // the vote map after filing sender's vote is exactly the old one plus (sender -> index); the index is that of
+//@ // an existing candidate equal to the submitted one (for config votings: equal in every field), or the index of
+//@ // the candidate appended now
+//@ pred voteFiled(v, sender, candidate) := mapdom(v.Votes) == store(old(mapdom(v.Votes)), keyof(sender), true) && mapvals(v.Votes) == store(old(mapvals(v.Votes)), keyof(sender), v.Votes[sender]) && 0 <= v.Votes[sender] && v.Votes[sender] <= old(len(v.Candidates)) && (v.Votes[sender] == old(len(v.Candidates)) <==> len(v.Candidates) == old(len(v.Candidates)) + 1) && (typearg(0, "shutterevents.BatchConfig") ==> (forall i :: (i == v.Votes[sender] && i < old(len(v.Candidates))) ==> sameConfig(candidate, old(v.Candidates[i])))) && (typearg(0, "bool") ==> (forall i :: (i == v.Votes[sender] && i < old(len(v.Candidates))) ==> candidate == old(v.Candidates[i])))
 //@ func (*Voting).SetVote
 //@   requires votingInv(v)
 //@   assigns mapobj(v.Votes), self.Candidates
 //@   ensures has(v.Votes, sender) && votingInv(v)
 //@   ensures forall a Arr :: a != sender ==> (has(v.Votes, a) == old(has(v.Votes, a)) && v.Votes[a] == old(v.Votes[a]))
 //@   ensures len(v.Candidates) >= old(len(v.Candidates)) && len(v.Candidates) <= old(len(v.Candidates)) + 1
+//@   ensures voteFiled(v, sender, candidate)
 //@   invariant forall a Arr :: has(v.Votes, a) == old(has(v.Votes, a))
+//@   invariant mapdom(v.Votes) == old(mapdom(v.Votes)) && mapvals(v.Votes) == old(mapvals(v.Votes))
 //@
+//@ // Outcome succeeds iff some candidate has reached the required number of (distinct) voters
 //@ func (*Voting).Outcome
 //@   requires votingInv(v)
 //@   ensures ret1 ==> (0 <= idx && idx < len(v.Candidates))
+//@   ensures ret1 ==> (exists i :: 0 <= i && i < len(v.Candidates) && reached(v, i, numRequiredVotes))
+//@   ensures !ret1 ==> (forall j :: 0 <= j && j < len(v.Candidates) ==> !reached(v, j, numRequiredVotes))
+//@   // for success votings: the value returned is the first candidate (in index order) that reached the number
+//@   ensures typearg(0, "bool") ==> (ret1 ==> (exists i :: 0 <= i && i < len(v.Candidates) && reached(v, i, numRequiredVotes) && ret0 == v.Candidates[i]))
 //@
 //@ // a restart happens only for the newest eon and only on a failure outcome; it takes a fresh number
 //@ func (*ShutterApp).maybeStartEon
@@ -254,6 +288,9 @@ package app
 //@   assigns app.ShutterApp.EONCounter, mapof(map[uint64]*app.DKGInstance)
 //@   ensures ret1 ==> (eon == old(app.EONCounter) && old(has(app.DKGMap, eon)))
 //@   ensures ret1 ==> (ok && !success)
+//@   // C11: ... i.e. at least Threshold(that eon's configuration) distinct voters of that eon's success voting voted
+//@   // 'failure' (the conversion of the threshold to int is the code's)
+//@   ensures ret1 ==> (exists i :: 0 <= i && i < old(len(app.DKGMap[eon].SuccessVoting.Candidates)) && old(reached(app.DKGMap[eon].SuccessVoting, i, int64(app.DKGMap[eon].Config.Threshold))) && !old(app.DKGMap[eon].SuccessVoting.Candidates[i]))
 //@   ensures ret1 ==> (app.EONCounter == old(app.EONCounter) + 1 && ret0 != nil && ret0.Eon == app.EONCounter && !old(has(app.DKGMap, app.EONCounter + 1)))
 //@   ensures ret1 ==> (fresh(ret0) && fresh(ret0.SuccessVoting.Votes) && has(app.DKGMap, app.EONCounter) && app.DKGMap[app.EONCounter] == ret0)
 //@   ensures ret1 ==> (forall e :: e != app.EONCounter ==> (has(app.DKGMap, e) == old(has(app.DKGMap, e)) && app.DKGMap[e] == old(app.DKGMap[e])))
@@ -296,13 +333,21 @@ package app
 //@ // at the newest configuration's threshold succeeds; acceptance resets the votes and starts a fresh eon.
 //@ // C10: a refused message (code != 0) changes neither configurations, votes, eons nor the DKG map.
 //@ func (*ShutterApp).deliverBatchConfig
-//@   requires appInv(app) && msg != nil && app.EONCounter < 18446744073709551614
+//@   requires appInv(app) && voteInv(app) && msg != nil && app.EONCounter < 18446744073709551614
 //@   assigns app.ShutterApp.Configs, app.CheckTxState.Members, app.ShutterApp.EONCounter, app.ShutterApp.ConfigVoting.Votes, app.ShutterApp.ConfigVoting.Candidates, mapof(map[uint64]*app.DKGInstance), mapobj(app.ConfigVoting.Votes)
 //@   ensures len(app.Configs) == old(len(app.Configs)) || len(app.Configs) == old(len(app.Configs)) + 1
 //@   ensures forall i :: 0 <= i && i < old(len(app.Configs)) ==> app.Configs[i] == old(app.Configs[i])
 //@   ensures len(app.Configs) == old(len(app.Configs)) + 1 ==> (ret0.Code == 0 && old(cfgOK(app, bc)) && old(isMember(app.Configs[len(app.Configs) - 1], sender)) && !old(has(app.ConfigVoting.Votes, sender)))
 //@   ensures len(app.Configs) == old(len(app.Configs)) + 1 ==> (app.EONCounter == old(app.EONCounter) + 1 && votesEmpty(app) && app.Configs[len(app.Configs) - 1].KeyperConfigIndex == bc.KeyperConfigIndex && app.Configs[len(app.Configs) - 1].Threshold == bc.Threshold && app.Configs[len(app.Configs) - 1].ActivationBlockNumber == bc.ActivationBlockNumber)
 //@   ensures len(app.Configs) == old(len(app.Configs)) ==> (app.EONCounter == old(app.EONCounter) && dkgMapUnchanged(app))
+//@   ensures app.EONCounter == old(app.EONCounter) || app.EONCounter == old(app.EONCounter) + 1
+//@   // C11, the threshold: a configuration is appended only if, counting the sender (a member who had not voted), at
+//@   // least Threshold(newest configuration) distinct members of the newest configuration have voted for one and the
+//@   // same candidate, and that candidate equals the appended configuration in every field
+//@   ensures len(app.Configs) == old(len(app.Configs)) + 1 ==> (exists i :: 0 <= i && i <= old(len(app.ConfigVoting.Candidates)) && old(voteCount(app.ConfigVoting, i)) + 1 >= old(lastCfg(app).Threshold) && (i < old(len(app.ConfigVoting.Candidates)) ==> sameConfig(bc, old(app.ConfigVoting.Candidates[i]))))
+//@   ensures thresholdsOK(app)
+//@   ensures votersAreMembers(app)
+//@   ensures noWinner(app)
 //@   ensures ret0.Code != 0 ==> (len(app.Configs) == old(len(app.Configs)) && votesUnchanged(app) && len(ret0.Events) == 0)
 //@   ensures (ret0.Code == 0 && len(app.Configs) == old(len(app.Configs))) ==> (old(isMember(app.Configs[len(app.Configs) - 1], sender)) && !old(has(app.ConfigVoting.Votes, sender)))
 //@   // the representation invariant is preserved
@@ -327,8 +372,10 @@ package app
 //@   ensures app.EONCounter == old(app.EONCounter) + 1 ==> old(isMember(app.DKGMap[msg.Eon].Config, sender))
 //@   ensures app.EONCounter == old(app.EONCounter) + 1 ==> !old(has(app.DKGMap[msg.Eon].SuccessVoting.Votes, sender))
 //@   ensures app.EONCounter == old(app.EONCounter) + 1 ==> !old(has(app.DKGMap, app.EONCounter + 1))
+//@   ensures app.EONCounter == old(app.EONCounter) + 1 ==> (exists i :: 0 <= i && i < len(app.DKGMap[msg.Eon].SuccessVoting.Candidates) && reached(app.DKGMap[msg.Eon].SuccessVoting, i, int64(app.DKGMap[msg.Eon].Config.Threshold)) && !app.DKGMap[msg.Eon].SuccessVoting.Candidates[i])
 //@   ensures ret0.Code != 0 ==> (app.EONCounter == old(app.EONCounter) && dkgMapUnchanged(app) && len(ret0.Events) == 0)
 //@   ensures votesUnchanged(app)
+//@   ensures mapdom(app.ConfigVoting.Votes) == old(mapdom(app.ConfigVoting.Votes)) && mapvals(app.ConfigVoting.Votes) == old(mapvals(app.ConfigVoting.Votes))
 //@   ensures ret0.Code != 0 ==> (forall e, a Arr :: has(app.DKGMap, e) ==> (has(app.DKGMap[e].SuccessVoting.Votes, a) == old(has(app.DKGMap[e].SuccessVoting.Votes, a))))
 //@   ensures dkgFiled(app)
 //@   ensures dkgVotings(app)
@@ -408,20 +455,43 @@ package app
 //@ // A-proto: decoded oneof wrappers are never typed nil pointers
 //@ pred wfPayload(m) := (typeis(m.Payload, "*shmsg.Message_BatchConfig") ==> as(m.Payload, "*shmsg.Message_BatchConfig") != nil) && (typeis(m.Payload, "*shmsg.Message_BlockSeen") ==> as(m.Payload, "*shmsg.Message_BlockSeen") != nil) && (typeis(m.Payload, "*shmsg.Message_CheckIn") ==> as(m.Payload, "*shmsg.Message_CheckIn") != nil) && (typeis(m.Payload, "*shmsg.Message_PolyEval") ==> as(m.Payload, "*shmsg.Message_PolyEval") != nil) && (typeis(m.Payload, "*shmsg.Message_PolyCommitment") ==> as(m.Payload, "*shmsg.Message_PolyCommitment") != nil) && (typeis(m.Payload, "*shmsg.Message_Accusation") ==> as(m.Payload, "*shmsg.Message_Accusation") != nil) && (typeis(m.Payload, "*shmsg.Message_Apology") ==> as(m.Payload, "*shmsg.Message_Apology") != nil) && (typeis(m.Payload, "*shmsg.Message_DkgResult") ==> as(m.Payload, "*shmsg.Message_DkgResult") != nil)
 //@ func (*ShutterApp).deliverMessage
-//@   requires appInv(app) && (msg != nil ==> wfPayload(msg)) && app.EONCounter < 18446744073709551614
+//@   requires appInv(app) && voteInv(app) && (msg != nil ==> wfPayload(msg)) && app.EONCounter < 18446744073709551614
 //@   assigns app.ShutterApp.Configs, app.CheckTxState.Members, app.ShutterApp.EONCounter, app.ShutterApp.ConfigVoting.Votes, app.ShutterApp.ConfigVoting.Candidates, mapof(map[uint64]*app.DKGInstance), mapof(map[common.Address]int), app.DKGInstance.SuccessVoting.Candidates, mapof(map[common.Address]app.ValidatorPubkey), mapof(map[common.Address]uint64), mapof(map[app.SenderReceiverPair]struct{}), mapof(map[common.Address]struct{})
 //@   ensures ret0.Code != 0 ==> (len(ret0.Events) == 0 && noEffect(app))
+//@   // the representation invariant is preserved (closing the induction over transactions)
+//@   ensures appCfgInv(app) && len(app.Configs) >= 1
+//@   ensures app.DKGMap != nil && app.EONCounter < 18446744073709551615
+//@   ensures dkgFiled(app)
+//@   ensures dkgVotings(app)
+//@   ensures dkgSeparate(app)
+//@   ensures ntInv(app.NonceTracker) && app.CheckTxState != nil
+//@   ensures votingInv(app.ConfigVoting)
+//@   ensures votingsSeparate(app)
+//@   ensures thresholdsOK(app)
+//@   ensures votersAreMembers(app)
+//@   ensures noWinner(app)
 //@
 //@ // C10/C11: a transaction is executed only if it decodes, names this chain and its (sender, nonce) pair is
 //@ // unused; the pair is consumed before execution; a refused transaction (code != 0) produces no events and
 //@ // changes nothing but possibly that nonce.
 //@ func (*ShutterApp).DeliverTx
-//@   requires appInv(app) && app.EONCounter < 18446744073709551614
+//@   requires appInv(app) && voteInv(app) && app.EONCounter < 18446744073709551614
 //@   assigns app.ShutterApp.Configs, app.CheckTxState.Members, app.ShutterApp.EONCounter, app.ShutterApp.ConfigVoting.Votes, app.ShutterApp.ConfigVoting.Candidates, mapof(map[uint64]*app.DKGInstance), mapof(map[common.Address]int), app.DKGInstance.SuccessVoting.Candidates, mapof(map[common.Address]app.ValidatorPubkey), mapof(map[common.Address]uint64), mapof(map[app.SenderReceiverPair]struct{}), mapof(map[common.Address]struct{}), mapof(map[common.Address]map[uint64]bool), mapof(map[uint64]bool)
 //@   ensures ret0.Code == 0 ==> (err == nil && bytes_str(content(msg.ChainId)) == app.ChainID && !old(nonceUsed(app.NonceTracker, signer, msg.RandomNonce)) && nonceUsed(app.NonceTracker, signer, msg.RandomNonce))
 //@   ensures ret0.Code != 0 ==> (len(ret0.Events) == 0 && noEffect(app))
 //@   ensures forall a Arr, n :: old(nonceUsed(app.NonceTracker, a, n)) ==> nonceUsed(app.NonceTracker, a, n)
-//@   ensures ntInv(app.NonceTracker)
+//@   // the representation invariant is preserved (closing the induction over transactions)
+//@   ensures appCfgInv(app) && len(app.Configs) >= 1
+//@   ensures app.DKGMap != nil && app.EONCounter < 18446744073709551615
+//@   ensures dkgFiled(app)
+//@   ensures dkgVotings(app)
+//@   ensures dkgSeparate(app)
+//@   ensures ntInv(app.NonceTracker) && app.CheckTxState != nil
+//@   ensures votingInv(app.ConfigVoting)
+//@   ensures votingsSeparate(app)
+//@   ensures thresholdsOK(app)
+//@   ensures votersAreMembers(app)
+//@   ensures noWinner(app)
 //@
 //@ // the mempool check refuses undecodable, foreign-chain and replayed transactions and senders outside every
 //@ // accepted keyper set
@@ -458,6 +528,7 @@ package app
 //@ func NewShutterApp
 //@   ensures ret0 != nil && fresh(ret0) && appInv(ret0) && len(ret0.Configs) == 1 && len(ret0.Configs[0].Keypers) == 0 && ret0.EONCounter == 0
 //@   ensures ret0.CheckTxState != nil && ret0.CheckTxState.TxCounts != nil && ntInv(ret0.CheckTxState.NonceTracker)
+//@   ensures mapdom(ret0.ConfigVoting.Votes) == emptyintset() && len(ret0.ConfigVoting.Candidates) == 0 && voteInv(ret0)
 //@
 //@ // start-up: InitChain takes the state NewShutterApp built (no key generation filed yet) to a state with the
 //@ // representation invariant every handler relies on; the only conjunct of appInv it cannot establish is the
@@ -465,7 +536,7 @@ package app
 //@ // handler anyway). Genesis decoding (amino) is an unmodelled call; log.Fatal is treated as returning, i.e. the
 //@ // invariant is shown even on the paths on which the process would in fact exit.
 //@ func (*ShutterApp).InitChain
-//@   requires appInv(app) && (forall e :: !has(app.DKGMap, e)) && (forall i :: 0 <= i && i < len(req.Validators) ==> vuProto(req.Validators[i]))
+//@   requires appInv(app) && voteInv(app) && mapdom(app.ConfigVoting.Votes) == emptyintset() && (forall e :: !has(app.DKGMap, e)) && (forall i :: 0 <= i && i < len(req.Validators) ==> vuProto(req.Validators[i]))
 //@   assigns app.ShutterApp.ForkHeights, app.ForkHeights.CheckInUpdateNew, app.ForkHeights.CheckInUpdate, app.ShutterApp.Validators, app.ShutterApp.Configs, app.ShutterApp.EONCounter, app.ShutterApp.CheckTxState, app.ShutterApp.ChainID
 //@   ensures appCfgInv(app) && len(app.Configs) >= 1
 //@   ensures app.DKGMap != nil && (forall e :: !has(app.DKGMap, e))
@@ -473,6 +544,9 @@ package app
 //@   ensures votingInv(app.ConfigVoting)
 //@   ensures votingsSeparate(app)
 //@   ensures votesUnchanged(app)
+//@   ensures thresholdsOK(app)
+//@   ensures votersAreMembers(app)
+//@   ensures noWinner(app)
 //@
 //@ // C11: votes are pooled only for IDENTICAL configs - the equality the config voting uses implies agreement of
 //@ // threshold, config index, activation block and keyper list
